@@ -91,7 +91,13 @@ async def sim_process(
     Coroutine running the simulator *sim*.
     """
     sim.started = True
-    sim.rt_start = rt_start = perf_counter()
+    # scheduler.run() gives all simulators the same real-time origin before
+    # the first process runs: the processes of other simulators may already
+    # have advanced this simulator's progress relative to it. Moving the
+    # origin to a later reading here would make the progress go backwards.
+    if not hasattr(sim, "rt_start"):
+        sim.rt_start = perf_counter()
+    rt_start = sim.rt_start
 
     try:
         advance_progress(sim, world)
